@@ -73,6 +73,26 @@ class Sc:
         try: return json.loads(r.stdout)['stats']
         except Exception: return None
     def zero(self): self.run(['--zero-stats'])
+    def raw_compile(self, exe, cwd, args, timeout=20):
+        """a Compile request written to the server's socket directly (what a client in another mount namespace or container sends:
+        the path exists for it, not for the server); returns the bytes of the first response frame, b'' if the connection just ends"""
+        import socket, struct
+        os_ = lambda b: struct.pack('<IQ', 0, len(b)) + b
+        body = struct.pack('<I', 4) + os_(exe.encode()) + os_(cwd.encode()) + struct.pack('<Q', len(args)) + b''.join(os_(a.encode()) for a in args) + struct.pack('<Q', 0)
+        if 'SCCACHE_SERVER_UDS' in self.env: s = socket.socket(socket.AF_UNIX); s.connect(self.env['SCCACHE_SERVER_UDS'])
+        else: s = socket.create_connection(('127.0.0.1', int(self.env['SCCACHE_SERVER_PORT'])))
+        s.settimeout(timeout); s.sendall(struct.pack('>I', len(body)) + body)
+        try:
+            head = s.recv(4)
+            if len(head) < 4: return b''
+            n = struct.unpack('>I', head)[0]; buf = b''
+            while len(buf) < n:
+                c = s.recv(n - len(buf))
+                if not c: break
+                buf += c
+            return buf
+        except OSError: return b''
+        finally: s.close()
     def compile(self, argv, cwd, env=None, timeout=120):
         return self.run(argv, cwd=cwd, env=env, timeout=timeout)
 
